@@ -146,6 +146,9 @@ def sweep_cases(tier, seed):
                 if mx == 2:
                     cfg["keepalive"] = [2, 3, 4]
                     cfg["no_delay"] = True
+                if mx is None and ie:
+                    # TLS connections: closing a wrapped socket whose connection broke (its closing handshake, unwrap, fails then)
+                    cfg["tls"] = True
                 if mx == 1 and not ie:
                     # the pooled objects are instances of a Client subclass that is falsy (it defines __len__)
                     cfg["client_class"] = "falsy"
